@@ -160,6 +160,13 @@ Siblings(b, p, n) == LET par == IF Len(p) = 1 THEN b ELSE NodeAt(b, Up(p)).body
                      IN SubSeq(par, p[Len(p)], p[Len(p)] + n - 1)
 
 \* ----------------------------------------------------- the transformations
+\* OMPParallelLoop / OMPLoop are the LFRic-specific transformations
+\* (DynamoOMPParallelLoopTrans, Dynamo0p3OMPLoopTrans); GenOMP* the generic
+\* OMPParallelLoopTrans / OMPLoopTrans, which rely on the loop's own
+\* independence analysis.  The intended validation is the same.
+GenericOmp == {"GenOMPParallelLoop", "GenOMPLoop"}
+LoopDirOps == {"OMPParallelLoop", "OMPLoop", "ACCLoop"} \cup GenericOmp
+
 LoopTargets(nk) == {[w |-> w, k |-> i, k2 |-> i] : w \in {"main", "colours"},
                                                   i \in 1..nk}
 RegionTargets(nk) == {[w |-> "top", k |-> i, k2 |-> j] :
@@ -167,7 +174,8 @@ RegionTargets(nk) == {[w |-> "top", k |-> i, k2 |-> j] :
                      {[w |-> "inner", k |-> i, k2 |-> i] : i \in 1..nk}
 Ops(nk) ==
     {[name |-> nm, tg |-> t, opt |-> ""] :
-        nm \in {"Colour", "OMPParallelLoop", "OMPLoop", "RedundantComp"},
+        nm \in {"Colour", "OMPParallelLoop", "OMPLoop", "RedundantComp"} \cup
+               GenericOmp,
         t \in LoopTargets(nk)} \cup
     {[name |-> "ACCLoop", tg |-> t, opt |-> o] :
         t \in LoopTargets(nk), o \in AccOpts} \cup
@@ -175,8 +183,9 @@ Ops(nk) ==
         nm \in {"OMPParallel", "ACCParallel", "ACCKernels"},
         t \in {r \in RegionTargets(nk) : r.k <= r.k2}}
 
-DirOf(name) == CASE name = "OMPParallelLoop" -> "omp_parallel_do"
-                 [] name = "OMPLoop"         -> "omp_do"
+DirOf(name) == CASE name \in {"OMPParallelLoop", "GenOMPParallelLoop"}
+                                             -> "omp_parallel_do"
+                 [] name \in {"OMPLoop", "GenOMPLoop"} -> "omp_do"
                  [] name = "ACCLoop"         -> "acc_loop"
                  [] name = "OMPParallel"     -> "omp_parallel"
                  [] name = "ACCParallel"     -> "acc_parallel"
@@ -201,7 +210,7 @@ Intended(b, kerns, dm, op) ==
            THEN Ok(Splice(b, p, 1,
                      <<Loop("colours", "", <<Loop("colour", n.x, n.body)>>)>>))
            ELSE Refused(b)
-      [] op.name \in {"OMPParallelLoop", "OMPLoop", "ACCLoop"} ->
+      [] op.name \in LoopDirOps ->
            \* a loop over colours is never parallelised; a loop over all cells
            \* only if no kernel increments shared DoFs
            IF /\ n.k = "loop" /\ n.t # "colours"
